@@ -253,6 +253,11 @@ def gadget_networks() -> dict[str, list[list[int]]]:
                                            lambda s: (s[2] and s[0] and s[1]) or (s[3] and s[4]), lambda s: s[3]])
     # a variable that becomes a source below a motif (X below A = 0) next to an independent bistable pair
     g["derived_src"] = bn.from_exprs(4, [lambda s: s[0], lambda s: s[1] or s[0], lambda s: s[2] and s[3], lambda s: s[2]])
+    # nested blocks without a clean minimal block: an upstream module with a motif-avoidant attractor (A, B, C) and a downstream
+    # switch (X, Y) that sustains itself whatever the upstream does - the upstream attractor combined with X = Y = 1 is an attractor
+    # that only shows when block expansion continues with ALL successors
+    g["maa_up_nested"] = bn.from_exprs(5, [lambda s: ((not s[0]) and (not s[1])) or s[2], lambda s: ((not s[0]) and (not s[1])) or s[2],
+                                           lambda s: s[0] and s[1], lambda s: s[4] or s[0], lambda s: s[3]])
     g["xnor_latch"] = bn.disjoint_union(g["xnor2"], g["latch"])
     g["xnor_2latch"] = bn.disjoint_union(g["xnor_latch"], g["latch"])
     g["xnor_3latch"] = bn.disjoint_union(g["xnor_2latch"], g["latch"])
